@@ -314,6 +314,13 @@ def run(ctx):
             ctx.check(bool(mins) and must and via, "C13.D2.clamp", "next:unclamped-path",
                       "with a maximum configured, every path to the yielded delay passes min(delay, max)", s["span"])
 
+    # builders: configuring one setting keeps the others (a `..Default::default()` in `with_max_duration` silently resets the attempt budget)
+    bs = [b_ for p_, b_ in sorted(F.bodies.items()) if p_.startswith("selium::keep_alive::backoff_strategy::BackoffStrategy::with_") and "{closure" not in p_]
+    ctx.touch(*bs)
+    for b_ in bs:
+        dflt = [c for c in b_.calls() if strip_generics(c.callee) == "core::default::Default::default" or (c.name() in ("default", "new") and "backoff_strategy" in (c.callee + (c.t.get("resolved") or "")))]
+        ctx.check(not dflt, "C13.D5.builders-preserve", "builder-resets:%s" % b_.name, "BackoffStrategy::%s keeps the settings it is not about (no default()/new() state)" % b_.name, (dflt or [b_])[0].span)
+    ctx.check(len(bs) >= 3, "C13.D5.builders-preserve", "builders-missing", "the three with_* builders of BackoffStrategy were analysed (%d)" % len(bs))
     # D4 dependence signature
     sws = K.find_variant_switches(nx, STRAT)
     if not ctx.check(len(sws) == 1, "C13.D4.signature", "next:strategy-match", "next() matches once on the strategy", nx.span):
@@ -356,5 +363,15 @@ def run(ctx):
             want = "multiplies step by factor raised to a power of the attempt number"
         else:
             ok, want = False, "unknown strategy"
+        if ok and vname in ("Linear", "Exponential") and muls:
+            # no path of the arm yields a delay that did not go through the multiplication with `step` (a shortcut such as
+            # "the power overflowed, so the delay is MAX" is wrong for a zero step)
+            stepmuls = [c for c in muls if any(op_local(a) in stepv for a in c.args)]
+            entry = [t_ for vn_, t_ in flow.switch_on_variant(nx, sws[0])[2].items() if vn_ == vname]
+            exits = {s_ for x in blocks for s_ in nx.succ_map()[x] if s_ not in blocks}
+            if entry and stepmuls and exits:
+                skipped = flow.reach_avoiding(nx, entry, [c.bb for c in stepmuls]) & exits
+                ok = not skipped
+                want += " on every path"
         ctx.check(ok, "C13.D4.signature", "next:signature:" + vname, "%s delay %s (mul-family calls: %s; pow-family: %s)" % (
             vname, want, [c.name() for c in muls], [c.name() for c in pows]), (cs or [nx])[0].span)
